@@ -7,6 +7,8 @@ import TonicModel.Lemmas.WebClientBlock
 import TonicModel.Lemmas.WebCaller
 import TonicModel.Lemmas.WebClientHead
 import TonicModel.Lemmas.WebClientHints
+import TonicModel.Lemmas.WebClientFuel
+import TonicModel.Lemmas.WebClientHintsGen
 import TonicModel.Props.C04
 /-
 C17 — grpc-web client layer recovers messages and full trailers under any chunking.
@@ -267,7 +269,9 @@ theorem C17_domain_is_readers (frames : List (Bool × Bytes)) (trailers : List P
 /-- **Cut-off or malformed bodies end in an error, full statement.**  For every body — any
 events, any chunking — whose data bytes are NOT a sequence of complete frames with known
 flags (that is: the body stops inside a frame header or inside a payload, at any byte, or
-carries an unknown frame type), the caller's stream ends with an error: never a clean end. -/
+carries an unknown frame type), the caller's stream ends with an error: never a clean end.
+(The error is one the loop's own branches return: by `C17_fuel_never_exhausted` the frames of
+`Fixed.observe` are those of the loop run without fuel.) -/
 theorem C17_truncation_is_error (evs : List BodyEv) (h : ¬ WellFramed (flat evs)) :
     (Fixed.observe evs).getLast? = some Out.err := by
   unfold Fixed.observe
@@ -289,16 +293,40 @@ theorem C17_truncated_body_is_error (items : List (UInt8 × Bytes))
     (List.take_append_drop _ _) hw
   exact hk j hj
 
+/-- **The loop's fuel is never exhausted.**  `Fixed.drain` (the loop once the inner body has
+ended) is written with a fuel argument whose exhausted case returns an error frame.  That case is
+never reached: `WebClientLemmas.Runs` / `Drains` are the loop WITHOUT fuel (inductive big-step
+relations built from `Fixed.afterPoll` alone — one constructor per branch of `Fixed.run` /
+`Fixed.drain`, none for "out of fuel"; a loop that kept passing without reaching a `stop` would
+have no derivation), and for every event list, also hostile ones, what `Fixed.observe` computes is
+THE result of that fuel-free loop (it has at most one).  Any fuel above the number of buffered
+bytes plus one gives the same frames.  The progress argument: after the end of the inner body every
+pass that does not stop takes at least one buffered byte, or the stored trailers
+(`WebClientHintsLemmas.afterPoll_mu`). -/
+theorem C17_fuel_never_exhausted (evs : List BodyEv) :
+    Runs {} evs (Fixed.observe evs) ∧
+    (∀ os, Runs {} evs os → os = Fixed.observe evs) ∧
+    (∀ (st : St) (f : Nat), st.decoded.length + 1 < f →
+      Drains st (Fixed.drain f st) ∧ Fixed.drain f st = Fixed.drain (st.decoded.length + 3) st) := by
+  refine ⟨run_runs evs {}, fun os h => h.unique (run_runs evs {}), fun st f hf => ?_⟩
+  have hm := WebClientHintsLemmas.mu_le st
+  exact ⟨drain_drains f st (by omega),
+    drain_fuel_irrelevant f _ st (by omega) (by omega)⟩
+
 /-- **Totality / no busy loop.**  Every run of the repaired loop — any events, also hostile
 ones — is a finite list of data/trailers frames followed by exactly one terminal frame
-(`None` or an error).  (Termination of the loop itself is Lean's termination check of
-`Fixed.run`/`Fixed.drain`: the recursion consumes one inner event per pass and, once the inner
-body has ended, buffered bytes; the inner body is not polled after it has ended.) -/
+(`None` or an error), and that list is the result of the loop run WITHOUT fuel
+(`WebClientLemmas.Runs`, see `C17_fuel_never_exhausted`): the terminal frame is one the code's
+own branches produced after finitely many passes, never the model's out-of-fuel default.  (Once
+the inner body has ended it is not polled again: `Runs.ended` hands over to `Drains`, which only
+works on what is buffered.) -/
 theorem C17_total (evs : List BodyEv) :
-    ∃ (os : List Out) (t : Out), Fixed.observe evs = os ++ [t] ∧
+    ∃ (os : List Out) (t : Out), Fixed.observe evs = os ++ [t] ∧ Runs {} evs (os ++ [t]) ∧
       (t = Out.eos ∨ t = Out.err) ∧ ∀ o ∈ os, o ≠ Out.eos ∧ o ≠ Out.err := by
   obtain ⟨os, t, h1, h2, h3⟩ := run_endsOnce evs {}
-  refine ⟨os, t, h1, ?_, ?_⟩
+  refine ⟨os, t, h1, ?_, ?_, ?_⟩
+  · have := run_runs evs {}
+    rwa [h1] at this
   · cases t <;> simp [isTerminal] at h2 ⊢
   · intro o ho
     have := h3 o ho
@@ -430,7 +458,15 @@ theorem C17_witnesses_repaired :
 
 /-! ### the response head: content-type, status, version, headers (`ResponseFuture::poll`) -/
 
-/-- **Response content-type variants.**  `head` is the head of the inner service's response — ANY
+/-- Transcription lemma: the first two conjuncts are `rfl` and the third is `C17_lossless` verbatim,
+because the model function `WebClient.respond head evs := (head, Fixed.observe evs)` does not read
+`head` and `responseEncoding _ := .none` by definition — "for every head" holds by construction of
+the model.  That tonic-web's `ResponseFuture::poll` really ignores the response head is carried by
+the correspondence run (`cl` / `st` cases with an `rp <status> <version> <headers>` head: 36
+content-type values, 21 statuses, 5 versions, random heads; the head the caller gets is compared
+token for token), not by this theorem.
+
+**Response content-type variants.**  `head` is the head of the inner service's response — ANY
 status, version and header list, in particular any `content-type` value: absent, one of the four
 literals tonic-web knows, another message format (`application/grpc-web+json`, `+thrift`), with
 parameters (`application/grpc-web+proto; charset=utf-8`), in any letter case
@@ -468,7 +504,12 @@ theorem C17_text_response_is_an_error (head : RespHead) (evs : List BodyEv) (raw
     (respond head evs).2.getLast? = some Out.err :=
   C17_truncation_is_error evs (WebClientHeadLemmas.text_not_wellFramed (flat evs) raw hne htext)
 
-/-- **The caller's view of a 200 response does not depend on the rest of the head**: with
+/-- Transcription lemma: `(respond head evs).2` is `Fixed.observe evs` by definition and
+`WebCaller.streamingAt` reads nothing of the head but `head.status`, so the statement holds by
+construction of the two model functions; the assurance that `client::Grpc` over the layer behaves so
+is the `st` cases with an `rp` head in the correspondence run.
+
+**The caller's view of a 200 response does not depend on the rest of the head**: with
 `client::Grpc` over the layer, the messages and the end of a server-streaming call are those of
 `C17_caller_sees_status` / `C17_caller_sees_messages`, whatever content-type, version and further
 headers the response carries (headers tonic interprets itself — `grpc-status`, `grpc-encoding` —
@@ -552,7 +593,12 @@ the frame.  `Hints.outerHint bits` is `GrpcWebCall`'s answer in client/Decode mo
 `bits` says which hints the INNER body gives (exact size, end of stream). -/
 
 open WebClient.Hints in
-/-- **Hints are invisible in the frames.**  Whatever the inner body answers to `size_hint` /
+/-- Transcription lemma: `Hints.runH` is `Fixed.run` copied clause by clause with a hint paired to
+every frame and never branches on a hint, so projecting the hints away gives `Fixed.run` by
+construction; that the REAL body's frames do not depend on the hints the inner body gives is
+carried by the `clh` / `sth` cases of the correspondence run.
+
+**Hints are invisible in the frames.**  Whatever the inner body answers to `size_hint` /
 `is_end_stream`, and whatever the returned body answers, the frames are those of
 `Fixed.observe` — `C17_lossless`, `C17_truncation_is_error`, `C17_total` apply unchanged. -/
 theorem C17_hints_invisible (hf : HintFn) (evs : List BodyEv) :
@@ -561,15 +607,39 @@ theorem C17_hints_invisible (hf : HintFn) (evs : List BodyEv) :
 
 open WebClient.Hints in
 /-- **`is_end_stream()` is true only right before the `None`**, for every body, chunking and
-`Pending` pattern and every hint behaviour of the inner body: never while message bytes are
-buffered or the trailers are still to be handed out, never before an error. -/
+`Pending` pattern and each of the four hint behaviours of the harness's scripted inner body
+(`bits % 4`: exact `size_hint` or none, `is_end_stream` once nothing is left or never): never while
+message bytes are buffered or the trailers are still to be handed out, never before an error.
+For an arbitrary inner body see `C17_end_stream_hint_sound_any_inner`. -/
 theorem C17_end_stream_hint_sound (bits : Nat) (evs : List BodyEv) :
     endHintOk (observeH (outerHint bits) evs) = true :=
   WebClientHintsLemmas.runH_end bits evs {} _ (WebClientHintsLemmas.quietR_outer bits {} evs)
 
+open WebClient.Hints WebClientHintsLemmas in
+/-- **… over ANY inner body that keeps `http_body`'s contract.**  `outerHintOf inner` is the
+repaired `is_end_stream` expression (`decoded` empty ∧ no trailers held ∧ (inner body done ∨ inner
+body says end-of-stream)) over an arbitrary inner hint function `inner` (events still to come ↦
+hint; `outerHint bits = outerHintOf (innerHint bits)` by `rfl`).  If the inner body says
+`is_end_stream() == true` only when nothing is left (`InnerEndHonest`: the contract of
+`http_body::Body`), the returned body says it only right before its `None` — every body, chunking
+and `Pending` pattern.  The hypothesis is needed: over an inner body that claims its end while a
+trailers frame is still to come, the returned body repeats the false claim (second conjunct). -/
+theorem C17_end_stream_hint_sound_any_inner :
+    (∀ (inner : List BodyEv → Hint), InnerEndHonest inner → ∀ evs : List BodyEv,
+      endHintOk (observeH (outerHintOf inner) evs) = true) ∧
+    endHintOk (observeH (outerHintOf (fun _ => ⟨true, 0, none⟩)) [.data tf0]) = false :=
+  ⟨fun _ hi evs => observeH_end_of (outerHintOf_endSound hi) evs, by decide +kernel⟩
+
 open WebClient.Hints in
-/-- **`size_hint()` is sound**: at every frame, `lower ≤ data bytes from here on ≤ upper` (the
-trailers frame and bytes cut off by an error are not data). -/
+/-- Transcription lemma: `Hints.outerHint` has `lower := 0, upper := none` by definition (the
+repaired `size_hint` returns `SizeHint::default()`), and `sizeHintOk` is true of EVERY frame list
+that carries only such hints — nothing about `Fixed.run` enters.  What carries the assurance that
+the real `size_hint()` claims no bounds (and that the delegated one was unsound) is the
+`size-hint-is-sound` clause of the `clh` cases in the correspondence run and
+`C17_hints_fail_when_delegated`.
+
+**`size_hint()` claims nothing, hence is sound**: at every frame, `lower = 0 ≤ data bytes from
+here on`, and there is no upper bound to exceed. -/
 theorem C17_size_hint_sound (bits : Nat) (evs : List BodyEv) :
     sizeHintOk (observeH (outerHint bits) evs) = true :=
   WebClientHintsLemmas.runH_size bits evs {} _
